@@ -112,8 +112,8 @@ PROGS_S["translate"] = [("translate", "m", "v", "t"), ("mult", "T", "m", "t2"), 
                         ("translate", "t", "nv", "back")]
 INPUTS_S = dict(INPUTS)
 INPUTS_S["translate"] = ["m", "v", "nv", "T", "O"]
-SCALED_CFG = {"quick": {"Mats": "GenQ", "MatsFew": "OneS", "MatsOne": "OneS"},
-              "thorough": {"Mats": "GenS", "MatsFew": "FewS", "MatsOne": "FewS"}}
+SCALED_CFG = {"quick": {"Mats": "GenQ", "MatsFew": "OneS", "MatsOne": "OneS", "RectOffs": "OffsQ", "Extents": "ExtQ"},
+              "thorough": {"Mats": "GenS", "MatsFew": "FewS", "MatsOne": "FewS", "RectOffs": "OffsT", "Extents": "ExtT"}}
 MAGNITUDE = Fraction(10 ** 6)          # the value the formal magnitude symbol T of AffineScaled.tla is realised with
 
 
@@ -123,7 +123,7 @@ def num_value(c, t=MAGNITUDE):
 
 
 def scaled_tlc(ck, workers):
-    cfgc = {"Laws": "<- AllLaws", "Pts": "<- PtsS", "Rects": "<- RectsS", "Scales": "<- Mags"}
+    cfgc = {"Laws": "<- AllLaws", "Pts": "<- PtsS", "Rects": "<- RectsS", "Scales": "<- Mags", "OffScales": "<- Far"}
     cfgc.update({k: "<- " + v for k, v in SCALED_CFG[ck.tier].items()})
     cfg = write_cfg(os.path.join(ck.tmp, "c20_scaled.cfg"), constants=cfgc,
                     invariants=["MatchesRef", "LawHolds", "CoeffsSmall", "PlainAgrees"], constraints=["EmitTerminal"])
@@ -143,7 +143,7 @@ def scaled_replay(ck, res, emit):
     if res.actions:
         require_coverage(res, AFF_ACTIONS)
     counts = {}
-    n = drift = tiny = huge = 0
+    n = drift = tiny = huge = far31 = far63 = 0
     per_law = {}
     with open(emit) as f:
         for line in f:
@@ -159,6 +159,14 @@ def scaled_replay(ck, res, emit):
             vals = [abs(x) for o in outs for x in spec[o] if x]
             tiny += any(x < Fraction(1, 10 ** 9) for x in vals)
             huge += any(x > 10 ** 9 for x in vals)
+            if law == "rect":           # all four corner images beyond +-2^31 (+-2^63) on the same side of some axis
+                ks = [spec[k] for k in ("k1", "k2", "k3", "k4")]
+                for lim, which in ((2 ** 31, 31), (2 ** 63, 63)):
+                    if any(all(p[ax] > lim for p in ks) or all(p[ax] < -lim for p in ks) for ax in (0, 1)):
+                        if which == 31:
+                            far31 += 1
+                        else:
+                            far63 += 1
             shown = {k: tuple(str(x) for x in v) for k, v in inputs.items()}
             for mode in ("frac", "mixed"):          # mixed: integral values as int, the way PDF numbers arrive
                 ins = inputs if mode == "frac" else {k: tuple(int(x) if x.denominator == 1 else x for x in v) for k, v in inputs.items()}
@@ -189,11 +197,14 @@ def scaled_replay(ck, res, emit):
     os.remove(emit)
     if n != res.emitted or n == 0:
         raise MachineryError("emitted %d terminal states but replayed %d" % (res.emitted, n))
-    if not tiny or not huge:
-        raise MachineryError("vacuous magnitude run: %d instances with a component below 1e-9, %d above 1e9" % (tiny, huge))
+    if not tiny or not huge or not far31 or not far63:
+        raise MachineryError("vacuous magnitude run: %d instances with a component below 1e-9, %d above 1e9, %d / %d rectangles "
+                             "with all corner images beyond 2^31 / 2^63 on one side" % (tiny, huge, far31, far63))
     ck.replayed += n
     ck.extra["affine_scaled"] = {"cases_per_law": per_law, "instances_with_component_below_1e-9": tiny,
                                  "instances_with_component_above_1e9": huge, "model_code_drift": drift,
+                                 "rect_instances_all_corners_beyond_2^31_on_one_side": far31,
+                                 "rect_instances_all_corners_beyond_2^63_on_one_side": far63,
                                  "property_failures_by_key": counts}
 
 
